@@ -372,9 +372,36 @@ func (x *Exec) opAllocate(st *Step) { //nolint:cyclop,gocyclo,maintidx
 	}
 	genBefore := len(x.w.gen.made)
 	failsBefore := x.w.gen.failed
+	// lost response: the server's write of the answer fails; the client retransmits the very same
+	// request and must get the answer it would have got (C19)
+	lost := st.RespLost && st.Defect == "" && !c.Stream && !st.Retx && st.TxFrom == 0 && x.m.Allocs[c.Idx] == nil && x.w.cfg.CallbackSleepS == 0
+	if lost {
+		x.w.srvSock.FailWrites(1)
+	}
 	rq, before, proceed := x.authExchange(c, ui, m, st, ref.MethodAllocate, "Allocate")
+	x.w.srvSock.FailWrites(0)
 	if !proceed {
 		return
+	}
+	lostRetry := false
+	if lost && rq.resp == nil {
+		x.St.inc("response-lost:allocate")
+		switch {
+		case x.nonceStale:
+			return // what got lost was the 438 challenge
+		case !x.nonceFresh:
+			x.resync()
+
+			return
+		}
+		x.tick()
+		failsBefore = x.w.gen.failed // (a scripted generator failure may have hit the lost attempt)
+		rq, _, proceed = x.authExchange(c, ui, m, st, ref.MethodAllocate, "Allocate (retransmitted after a lost response)")
+		if !proceed {
+			return
+		}
+		lostRetry = true
+		x.St.inc("allocate-retransmitted-after-lost-response")
 	}
 	user := Users[ui].Name
 	if a := x.m.Allocs[c.Idx]; a != nil {
@@ -442,6 +469,11 @@ func (x *Exec) opAllocate(st *Step) { //nolint:cyclop,gocyclo,maintidx
 			x.fail([]string{"C15", "C19"}, "failed-allocate-changed-state", "refused Allocate (%s) changed server state:\n before: %s\n after:  %s", refuse, before, after)
 		}
 		x.St.inc("allocate-refused")
+
+		return
+	}
+	if !success && lostRetry {
+		x.fail([]string{"C19"}, "retransmitted-allocate-not-success", "the answer to a well-formed Allocate was lost (write error at the server); its retransmission with the same transaction id was answered with %s", respDesc(rq.resp))
 
 		return
 	}
@@ -643,10 +675,21 @@ func (x *Exec) opCreatePermission(st *Step) {
 	c := x.client(st.C)
 	ui := x.userIdx(c, st)
 	m := &ref.Msg{Method: ref.MethodCreatePermission, Class: ref.ClassRequest, TxID: c.nextTx()}
-	for _, p := range st.P {
-		m.Add(ref.AttrXORPeerAddress, xorPeerValue(p, m.TxID))
+	for i, p := range st.P {
+		v := xorPeerValue(p, m.TxID)
+		if st.Opt == "trunc-first" && i == 0 {
+			// a truncated address (family and port intact, 1-3 / 1-15 address bytes) in front of
+			// well-formed ones: the request as a whole is malformed
+			cut := 5 + int(st.Seed%3)
+			if len(v) > 8 {
+				cut = 5 + int(st.Seed%15)
+			}
+			m.Add(ref.AttrXORPeerAddress, v[:cut])
+			x.St.inc("createpermission-truncated-first-peer")
+		}
+		m.Add(ref.AttrXORPeerAddress, v)
 	}
-	lost := st.RespLost && st.Defect == "" && !c.Stream
+	lost := st.RespLost && st.Defect == "" && !c.Stream && st.Opt == ""
 	if lost {
 		x.w.srvSock.FailWrites(1)
 	}
@@ -667,6 +710,8 @@ func (x *Exec) opCreatePermission(st *Step) {
 		refuse, props = "other user's allocation", []string{"C03", "C04"}
 	case len(st.P) == 0:
 		refuse = "no peer address"
+	case st.Opt == "trunc-first":
+		refuse, props = "a truncated XOR-PEER-ADDRESS in front of the well-formed ones", []string{"C11", "C07", "C09"}
 	default:
 		for _, p := range st.P {
 			pa := peerAddrOf(p)
